@@ -354,6 +354,9 @@ def rule_g(ctx):
 
 
 def run(ctx):
+    from . import c15 as _c15
+    from .common import shared as _sh15
+    ctx.guard(_sh15, ctx, "C05.b", _c15.run, why="the distance is the quadrature of the weighted flux norm over each cell")
     ctx.guard(rule_g, ctx)
     from .common import rule_abs_tolerance
     _m = ctx.model
